@@ -168,18 +168,14 @@ Definition violation_C16 (c : case_C16) : bool := negb (holds_C16 c).
 Definition model_paths (c : case_C16) : option (list str) :=
   match export_paths (c_oracle c) (c_jobs c) (c_path c) with ROk ds => Some ds | _ => None end.
 
-(* F7: path=None (or False) performs no uniqueness check and two jobs get the same path string *)
-Definition cls_F7 (c : case_C16) : bool :=
-  match c_path c, model_paths c with
-  | PNone, Some ds | PFalse, Some ds => has_dup ds
-  | _, _ => false
-  end.
-(* pairs of destinations, classified by what the code's own (raw string) checks could see *)
-Definition raw_nested (a b : str) : bool :=
-  negb (str_eqb a b) && (is_prefix (split 47 a) (split 47 b) || is_prefix (split 47 b) (split 47 a)).
-Definition loc_clash (a b : str) : bool :=
-  is_prefix (loc_of a) (loc_of b) || is_prefix (loc_of b) (loc_of a).
-(* os.makedirs works on the lexical path: 'a/x/../y' also creates 'a/x' *)
+(* ---- F20' (what is left of F20 after the repair 3dfa233):
+   (root) a destination that normalises to the export root ('.' or '') is accepted next to other
+          jobs: '.' has no proper token prefix and is nobody's token prefix, '' and '.' are different
+          strings;
+   (lex)  the copy still uses the un-normalised string and os.makedirs works on the lexical path:
+          'a/x/../y' also creates 'a/x' (clashes with a job at 'a/x'), 'a/../' creates its own
+          final location before the final mkdir. *)
+Definition is_root (d : str) : bool := is_none (hd_error (loc_of d)).
 Definition lex_locs (d : str) : list (list str) :=
   let comps := filter (fun c => negb (is_empty c || str_eqb c dot)) (split 47 d) in
   flat_map (fun cs => match resolve_comps [] cs with Some q => [q] | None => [] end) (lex_prefixes [] comps).
@@ -187,13 +183,6 @@ Definition lex_clash (a b : str) : bool :=
   existsb (fpath_eqb (loc_of a)) (lex_locs b) || existsb (fpath_eqb (loc_of b)) (lex_locs a).
 Fixpoint exists_pair {A} (r : A -> A -> bool) (l : list A) : bool :=
   match l with [] => false | x :: t => existsb (r x) t || exists_pair r t end.
-(* F15: the leaf/node check, as written, accepted two paths of which one is a proper token prefix of
-   the other (it only looks at the paths that come earlier in job order) *)
-Definition cls_F15 (c : case_C16) : bool :=
-  match model_paths c with Some ds => exists_pair raw_nested ds | None => false end.
-(* F20: two path strings that are neither equal nor token-nested, but denote the same or nested
-   locations once normalised ('x' / 'x/', '.', 'a//b'): both checks compare raw strings *)
-(* ... or a single path whose own lexical prefixes already create its final location ('a/..') *)
 Definition self_clash (d : str) : bool :=
   let comps := filter (fun c => negb (is_empty c || str_eqb c dot)) (split 47 (pjoin2 TARGET_STR d)) in
   let locs := List.map (resolve_comps []) (lex_prefixes [] comps) in
@@ -201,35 +190,17 @@ Definition self_clash (d : str) : bool :=
   | Some p => existsb (fun l => match l with Some q => fpath_eqb p q | None => false end) (removelast locs)
   | None => false
   end.
-Definition cls_F20 (c : case_C16) : bool :=
+Definition cls_root (c : case_C16) : bool :=
   match model_paths c with
-  | Some ds => exists_pair (fun a b => negb (str_eqb a b) && negb (raw_nested a b) && (loc_clash a b || lex_clash a b)) ds
-               || existsb self_clash ds
+  | Some ds => Nat.leb 2 (List.length ds) && existsb is_root ds
   | None => false
   end.
-(* F6: zip target, and some member name starts with a job's root string without lying below that
-   root ('a/10/f' vs root 'a/1'; 'signac_statepoint.json' vs root 's') *)
-Definition cls_F6 (c : case_C16) : bool :=
-  match c_kind c, model_paths c, eo_art (run_export c) with
-  | KZip, Some ds, AZip ms =>
-      existsb (fun r => negb (is_empty r) && negb (str_eqb r dot) &&
-                        existsb (fun m => startswith (fst m) r && negb (is_prefix (split 47 r) (split 47 (fst m)))) ms)
-              (List.map zip_arcname ds)
-  | _, _, _ => false
-  end.
-(* F18: archive target and a job is exported to the archive root ('' / '.'): the analysers look for
-   '/signac_statepoint.json' and never find it *)
-Definition cls_F18 (c : case_C16) : bool :=
-  match c_kind c, model_paths c with
-  | KZip, Some ds | KTar, Some ds => existsb (fun d => is_none (hd_error (loc_of d))) ds
-  | _, _ => false
-  end.
-(* F19: an exported path climbs out of the target ('..' left after normalisation) *)
-Definition cls_F19 (c : case_C16) : bool :=
+Definition cls_lex (c : case_C16) : bool :=
   match model_paths c with
-  | Some ds => existsb (fun d => match loc_of d with t :: _ => str_eqb t dotdot | [] => false end) ds
+  | Some ds => exists_pair lex_clash ds || existsb self_clash ds
   | None => false
   end.
+Definition cls_F20 (c : case_C16) : bool := cls_root c || cls_lex c.
 
 (* F21: zip target and a job directory contains an empty directory (zip archives get files only) *)
 Definition has_empty_dir (t : fs) : bool :=
@@ -250,18 +221,13 @@ Definition expl_F21 (c : case_C16) : bool :=
 
 Definition known_tag (c : case_C16) : N :=
   if holds_C16 c then 0 else
-  let expl_unique := h_unique c || cls_F7 c || cls_F20 c || cls_F15 c in
-  let expl_leaf := h_leafnode c || cls_F15 c || cls_F20 c in
-  let expl_clean := h_raise_clean c || cls_F7 c || cls_F20 c || cls_F15 c || cls_F19 c in
-  let expl_xcont := h_export_contained c || cls_F19 c in
-  (* a root job ('' / '.') that a callable schema does recognise makes str.startswith('') true for
-     every member of a zip archive: the F6 mechanism with the F18 root *)
-  let expl_icont := h_import_contained c || cls_F6 c || cls_F18 c in
-  let expl_over := h_no_overwrite c || cls_F6 c || cls_F18 c in
-  let expl_round := h_roundtrip c || cls_F6 c || cls_F18 c || cls_F7 c || cls_F20 c || cls_F15 c || cls_F19 c || expl_F21 c in
-  if h_src c && expl_unique && expl_leaf && expl_clean && expl_xcont && expl_icont && expl_over && expl_round then
-    (if cls_F7 c then 1 else if cls_F15 c then 2 else if cls_F6 c then 3 else if cls_F18 c then 4
-     else if cls_F19 c then 5 else if cls_F20 c then 6 else if cls_F21 c then 7 else 0)
+  let expl_unique := h_unique c || cls_root c in
+  let expl_leaf := h_leafnode c || cls_root c in
+  let expl_clean := h_raise_clean c || cls_F20 c in
+  let expl_round := h_roundtrip c || cls_F20 c || expl_F21 c in
+  if h_src c && h_export_contained c && h_import_contained c && h_no_overwrite c
+     && expl_unique && expl_leaf && expl_clean && expl_round then
+    (if cls_F20 c then 6 else if cls_F21 c then 7 else 0)      (* tags 1-5 (F7, F15, F6, F18, F19): repaired *)
   else 0.
 
 Fixpoint known_aux (cs : list case_C16) (i : N) : list N :=
